@@ -1018,6 +1018,18 @@ func (e *Env) evalCall(c *ast.CallExpr) (Val, error) {
 			return Val{}, fmt.Errorf("arrbase() needs a slice")
 		}
 		return Val{slBase(a.T), nil}, nil
+	case "userptr":
+		// the pointer (or boxed pointer) does not point into one of zog's own objects
+		a, err := e.eval(c.Args[0])
+		if err != nil {
+			return Val{}, err
+		}
+		pt := a.T
+		if pt.Sort == "Iface" {
+			pt = mk("Ptr", e.v.D.unboxFn("Ptr"), pt)
+		}
+		e.v.D.declFun("zz_userptr", []string{"Ptr"}, "Bool")
+		return Val{mk("Bool", "zz_userptr", pt), boolT}, nil
 	case "fromcode":
 		a, err := e.eval(c.Args[0])
 		if err != nil {
